@@ -8,7 +8,7 @@ import (
 )
 
 func init() {
-	Register(&Profile{Name: "edit-resync", Prop: "C16", Weight: 10, Quick: 3000, Thorough: 60000, Sweep: c16SweepCount, Fn: editResync})
+	Register(&Profile{Name: "edit-resync", Prop: "C16", Weight: 10, Quick: 60000, Thorough: 1500000, Sweep: c16SweepCount, Fn: editResync})
 	SetMeta("C16", &Meta{
 		Level: "exploration",
 		Rule: "one edited file A (random content) beside an intact file B; a single insertion or deletion of L bytes at position p (sweep: every p in [0,len] x every L in [1,2S+3] for small (S, len) pairs; seeded: random S in {4..256}, len a multiple of S or not, p biased to slice boundaries), or A's content under B's name / files swapped. Create is run with exactly as many recovery blocks as the edit geometrically touches (0 blocks: every recovery file deleted). Oracle from edit geometry, not from any scanner: usable >= N - touched, usable <= upper, Repair with exactly `touched` blocks restores the files. Non-trivial: the edit changed the file and left at least one slice of A relocated; distinct by (S, len mod S class, edit kind, p class, L class, touched).",
